@@ -117,6 +117,7 @@ class StaticsLib:
     def job(self):
         hs = self.headers()
         j = {"id": self.name, "path": self.wrap_path, "out": os.path.join(self.dir, self.name + ".rs"),
+             "log": os.path.join(self.dir, self.name + ".ndjson"),
              "suffix": None if self.opt["suffix"] == "default" else self.suffix,
              "callbacks": (["wrap-as-variadic-fn"] if self.opt["cb"] else []) + (["prefix-link-name-q_"] if self.opt["plink"] else []),
              "clang_args": ["-I" + self.dir] + (["-x", "c++"] if self.cxx else []), "headers": [], "contents": []}
